@@ -498,6 +498,26 @@ impl FromMeta<'_> for u32 {
     }
 }
 
+// Narrow integer fields.  A value must be representable in the field, as either a signed or an
+// unsigned number of that width; anything else is an error rather than being silently truncated.
+impl FromMeta<'_> for u16 {
+    fn from_meta(meta: &Sp<Meta>) -> Result<Self, FromMetaError<'_>> {
+        match i32::from_meta(meta)? {
+            x if (i16::MIN as i32..=u16::MAX as i32).contains(&x) => Ok(x as u16),
+            _ => Err(FromMetaError::expected("an integer that fits in 16 bits", meta)),
+        }
+    }
+}
+
+impl FromMeta<'_> for u8 {
+    fn from_meta(meta: &Sp<Meta>) -> Result<Self, FromMetaError<'_>> {
+        match i32::from_meta(meta)? {
+            x if (i8::MIN as i32..=u8::MAX as i32).contains(&x) => Ok(x as u8),
+            _ => Err(FromMetaError::expected("an integer that fits in 8 bits", meta)),
+        }
+    }
+}
+
 impl FromMeta<'_> for f32 {
     fn from_meta(meta: &Sp<Meta>) -> Result<Self, FromMetaError<'_>> {
         match ScalarValue::from_meta(meta)? {
